@@ -561,6 +561,15 @@ pub fn params_builder_roundtrip() -> Value {
 		if serde_json::from_str::<Value>(&m).ok() != Some(json!([v[0], s[1], v[2]])) {
 			return json!({"probe":"params_builder_roundtrip","disagrees":true,"input":"rpc_params![u64, text, u64]","observed":m,"expected":json!([v[0], s[1], v[2]]).to_string()});
 		}
+		// empty containers are an empty ARRAY (not "no params"): only an empty builder means "no params"
+		let e_slice: &[u64] = &[];
+		let empties = [("empty slice", txt(e_slice)), ("empty Vec", txt(Vec::<u64>::new())), ("empty array", txt([0u64; 0]))];
+		for (what, got) in empties {
+			tried += 1;
+			if got != "[]" {
+				return json!({"probe":"params_builder_roundtrip","disagrees":true,"input":format!("{what} as params"),"observed":got,"expected":"[]"});
+			}
+		}
 		let arr = txt([v[0], v[1], v[2]]);
 		let vecp = txt(vec![s[0].clone(), s[1].clone()]);
 		if serde_json::from_str::<Value>(&arr).ok() != Some(json!([v[0], v[1], v[2]])) || serde_json::from_str::<Value>(&vecp).ok() != Some(json!([s[0], s[1]])) {
@@ -1210,6 +1219,14 @@ pub fn server_message_classification() -> Value {
 			(r#"{"jsonrpc":"2.0","id":41,"method":"boom"}"#, err(-32603, json!(41))),
 			(r#"{"jsonrpc":"2.0","id":"forty-two","method":"boom"}"#, err(-32603, json!("forty-two"))),
 			(r#"{"jsonrpc":"2.0","method":"add","params":[1,2]}"#, Value::Null),
+			// an id outside the id domain (null, u64, string) is treated as absent: the message is a notification
+			(r#"{"jsonrpc":"2.0","id":-1,"method":"add","params":[1,2]}"#, Value::Null),
+			(r#"{"jsonrpc":"2.0","id":1.5,"method":"add","params":[1,2]}"#, Value::Null),
+			(r#"{"jsonrpc":"2.0","id":true,"method":"add","params":[1,2]}"#, Value::Null),
+			(r#"{"jsonrpc":"2.0","id":[1],"method":"add","params":[1,2]}"#, Value::Null),
+			(r#"{"jsonrpc":"2.0","id":{"a":1},"method":"add","params":[1,2]}"#, Value::Null),
+			(r#"{"jsonrpc":"2.0","id":18446744073709551616,"method":"add","params":[1,2]}"#, Value::Null),
+			(r#"{"jsonrpc":"2.0","method":"add","params":[1,2],"extra":true}"#, Value::Null),
 			(r#"{"jsonrpc":"2.0","id":3}"#, err(-32600, json!(3))),
 			(r#"{"jsonrpc":"2.0","id":"abc","foo":1}"#, err(-32600, json!("abc"))),
 			(r#"{"foo":1}"#, err(-32700, Value::Null)),
@@ -1731,6 +1748,11 @@ pub fn response_member_forms() -> Value {
 			}
 			if let Ok(r) = got {
 				let s1 = serde_json::to_string(&r).unwrap_or_default();
+				// the owned form (what every client path converts a parsed response to) serialises to the same bytes
+				let s_owned = serde_json::from_str::<Response<Value>>(&text).ok().map(|x| serde_json::to_string(&x.into_owned()).unwrap_or_default()).unwrap_or_default();
+				if s_owned != s1 {
+					return json!({"probe":"response_member_forms","disagrees":true,"input":format!("{text} parsed, then into_owned()"),"observed":s_owned,"expected":s1});
+				}
 				let r2 = serde_json::from_str::<Response<Value>>(&s1);
 				let s2 = r2.as_ref().ok().and_then(|x| serde_json::to_string(x).ok()).unwrap_or_default();
 				let v1: Value = serde_json::from_str(&s1).unwrap_or(Value::Null);
